@@ -19,7 +19,7 @@ RULE = (
     "before its first error followed by an exception of the same class, text and location; both end like yield; "
     "accepted + rejected == number of data rows. Fault injection at every row boundary k: delimited file with an "
     "undecodable byte / an unterminated quote starting in row k, fixed stream and file with a short last record / "
-    "an undecodable byte in row k / an input cut inside a CRLF delimiter / a line delimiter the setting forbids, ODS and XLSX truncated at several offsets, with a corrupted end or with damaged compressed cell data: every mode "
+    "an undecodable byte in row k / an input cut inside a CRLF delimiter / a line delimiter the setting forbids / a file ending inside a multi-byte character, a fixed file whose line delimiter lies on an I/O block boundary (4-64 KiB) with an undecodable byte in the following block, ODS and XLSX truncated at several offsets, with a corrupted end or with damaged compressed cell data: every mode "
     "must deliver a prefix of the fault-free output and then raise DataFormatError. Non-trivial: >= 1 rejected row "
     "that is not the last, or a fault with >= 1 row before it; distinct by hash of (CID rows, table, fault)."
 )
@@ -35,7 +35,9 @@ def cases(draw, kinds=gen_tables.KINDS):
     spec = draw(gen_tables.cid_specs(kinds=kinds))
     rows = draw(gen_tables.tables(spec))
     via = draw(st.sampled_from(["stream", "path"]))
-    return {"spec": spec, "rows": rows, "via": via}
+    # the counters are also read after passes with a validation limit (rows behind it are handed on unvalidated)
+    until = draw(st.sampled_from([None, None, 0, 1, 2, 4]))
+    return {"spec": spec, "rows": rows, "via": via, "until": until}
 
 
 def _describe(item):
@@ -96,10 +98,15 @@ def check_case(sub, case):
                     sub.fail("C06|raise-other-error|expected-%s|got-%s|%s" % (wanted[1], got[1], fmt_name), case,
                              "raise mode surfaced %r instead of the first rejection %r" % (got, wanted))
         # counters through the Reader object
-        for mode in ("yield", "continue"):
+        seen_counter_runs = set()
+        for mode, until in (("yield", None), ("continue", None), ("yield", case.get("until")),
+                            ("continue", case.get("until"))):
+            if until is None and (mode, until) in seen_counter_runs:
+                continue
+            seen_counter_runs.add((mode, until))
             cid = c04.load(spec)
             source, _ = gen_tables.write_source(spec, rows, tmpdir, via, name="count-" + mode)
-            reader = validio.Reader(cid, source, on_error=mode)
+            reader = validio.Reader(cid, source, on_error=mode, validate_until=until)
             produced = []
             try:
                 for item in reader.rows():
@@ -115,9 +122,9 @@ def check_case(sub, case):
             data_rows = max(0, len(stored) - spec["fmt"].get("header", 0))
             sub.evaluations += 1
             if reader.accepted_rows_count + reader.rejected_rows_count != data_rows:
-                sub.fail("C06|counters-sum|%s|%s" % (mode, fmt_name), case,
-                         "accepted %r + rejected %r != %d data rows" % (
-                             reader.accepted_rows_count, reader.rejected_rows_count, data_rows))
+                sub.fail("C06|counters-sum|%s|%s%s" % (mode, fmt_name, "" if until is None else "|limit"), case,
+                         "accepted %r + rejected %r != %d data rows (validation limit %r)" % (
+                             reader.accepted_rows_count, reader.rejected_rows_count, data_rows, until))
             n_rows = len([i for i in produced if not isinstance(i, Exception)])
             if reader.accepted_rows_count != n_rows:
                 sub.fail("C06|accepted-counter|%s|%s" % (mode, fmt_name), case,
@@ -134,11 +141,15 @@ def check_case(sub, case):
 
 # -- faults --------------------------------------------------------------------------------------
 FAULTS = {
-    "delimited": ["undecodable-byte", "unterminated-quote"],
-    "fixed": ["short-record", "undecodable-byte", "short-record-stream", "cut-line-delimiter", "wrong-line-delimiter"],
+    "delimited": ["undecodable-byte", "unterminated-quote", "truncated-character-at-end"],
+    "fixed": ["short-record", "undecodable-byte", "short-record-stream", "cut-line-delimiter", "wrong-line-delimiter",
+              "truncated-character-at-end"],
     "ods": ["truncate", "corrupt-end", "not-a-zip", "corrupt-payload", "corrupt-payload"],
     "excel": ["truncate", "corrupt-end", "not-a-zip", "corrupt-payload", "corrupt-payload"],
 }
+
+
+_LINE_END_TEXT = {"LF": "\n", "CR": "\r", "CRLF": "\r\n", "Any": "\n"}
 
 
 @st.composite
@@ -169,6 +180,9 @@ def _inject(spec, rows, fault, k, fraction, tmpdir):
         rest = gen_tables.delimited_text(rows[k:]).encode("utf-8")
         if fault == "undecodable-byte":
             data = good + b'"a\xff\xfeb"\n' + rest
+        elif fault == "truncated-character-at-end":
+            # the file ends after the first byte of a two-byte character, with or without a line break before it
+            data = (good[:-1] if fraction % 2 and good else good) + (b"\xc3" if fraction % 4 < 2 else b'"\xc3')
         else:
             data = good + b'"never closed,' + rest.replace(b'"', b"'")
         path = os.path.join(tmpdir, "fault.csv")
@@ -196,6 +210,11 @@ def _inject(spec, rows, fault, k, fraction, tmpdir):
                 data = (good[:-cut] + wrong + rest).encode("utf-8")
         elif fault == "undecodable-byte":
             data = good.encode("utf-8") + b"\xff" * width + b"\n" + rest.encode("utf-8")
+        elif fault == "truncated-character-at-end":
+            # complete records, the last one without its line delimiter, then the first byte of a two-byte character:
+            # the decoder fails where the reader looks for a line delimiter or for the next record
+            ending = len(_LINE_END_TEXT.get(spec["fmt"].get("line_delimiter"), "\n"))
+            data = (good[:-ending] if fraction % 2 and good else good).encode("utf-8") + b"\xc3"
         else:
             if width < 2:
                 return None
@@ -296,6 +315,99 @@ def check_fault(sub, case):
         shutil.rmtree(tmpdir, ignore_errors=True)
 
 
+# -- an undecodable byte in the block of bytes whose decoding starts at a line delimiter -------------------------------
+_BLOCK_DELIMITERS = {"LF": "\n", "CR": "\r", "CRLF": "\r\n", "Any": "\n", "Any-CRLF": "\r\n", "Any-CR": "\r"}
+
+
+def _block_cases(thorough):
+    cases_ = []
+    for target in ((8192, 16384) if not thorough else (4096, 8192, 16384, 32768, 65536)):
+        for width in ((1, 2, 5, 8) if not thorough else (1, 2, 3, 4, 5, 7, 8, 10, 32)):
+            for delimiter in sorted(_BLOCK_DELIMITERS):
+                for align in range(len(_BLOCK_DELIMITERS[delimiter]) + 1):
+                    for distance in (0, 2):
+                        cases_.append({"fault": "undecodable-after-block-boundary", "target": target, "width": width,
+                                       "delimiter": delimiter, "align": align, "distance": distance})
+    return cases_
+
+
+def _block_bytes(case):
+    """A fixed-width file (one Text field) whose line delimiter number n+1 has its byte number ``align`` at offset
+    ``target`` (align = its length: the next record starts there), all bytes before that offset valid, and a byte that
+    is not UTF-8 ``distance`` records later.  Returns (bytes, records before the delimiter at the boundary)."""
+    width, end = case["width"], _BLOCK_DELIMITERS[case["delimiter"]].encode("ascii")
+    size = width + len(end)
+    before = case["target"] - width - case["align"]
+    count, extra = divmod(before, size)
+    if extra > count:
+        return None
+    records = []
+    data = b""
+    for index in range(count + 1):
+        record = ("%d" % (index % 10)) * width
+        if index < extra:
+            record = record[:-1] + "\xe9"  # one byte more, the same number of characters
+        records.append(record)
+        data += record.encode("utf-8") + end
+    assert len(data) - len(end) + case["align"] == case["target"], (len(data), case)
+    for index in range(case["distance"]):
+        data += b"y" * width + end
+    data += b"\xff" * width + end + (b"z" * width + end) * 3
+    return data, records
+
+
+def check_block_fault(sub, case):
+    from vlib import cidlib
+
+    built = _block_bytes(case)
+    if built is None:
+        return
+    data, records = built
+    setting = case["delimiter"].split("-")[0]
+    cid_rows = [["D", "Format", "Fixed"], ["D", "Line delimiter", setting], ["D", "Encoding", "utf-8"],
+                ["F", "t", "", "", str(case["width"]), "Text", ""]]
+    tmpdir = tempfile.mkdtemp(prefix="c06b-")
+    label = "%s|align-%d" % (case["delimiter"], case["align"])
+    try:
+        path = os.path.join(tmpdir, "block.txt")
+        with open(path, "wb") as f:
+            f.write(data)
+        for mode in ("yield", "continue", "raise"):
+            items, ended = c04.read_all(cidlib.load_cid(cid_rows), path, mode)
+            sub.evaluations += 1
+            if ended is None:
+                sub.fail("C06|fault-swallowed|undecodable-after-block-boundary|%s|%s" % (label, mode), case,
+                         "a file with a byte that is not UTF-8 was read to its end (%d rows)" % len(items))
+            elif not isinstance(ended, errors.DataFormatError):
+                sub.fail("C06|fault-exception|%s|undecodable-after-block-boundary|%s|%s" % (
+                    type(ended).__name__, label, mode), case,
+                    "byte 0xff in the block that starts with byte %d of a line delimiter: %s: %s" % (
+                        case["align"], type(ended).__name__, ended))
+            delivered = [item for item in items if not isinstance(item, Exception)]
+            wanted = [[record] for record in records] + [["y" * case["width"]]] * case["distance"]
+            if delivered != wanted[:len(delivered)] or len(delivered) != len(items):
+                sub.fail("C06|fault-prefix|undecodable-after-block-boundary|%s|%s" % (label, mode), case,
+                         "%d items delivered; the first that differs from the records of the file is number %d" % (
+                             len(items), next((i for i, (a, b) in enumerate(zip(items, wanted)) if a != b), -1)))
+    finally:
+        shutil.rmtree(tmpdir, ignore_errors=True)
+
+
+def _block_shard(args):
+    from vlib.runner import Sub
+
+    index, count, cases_ = args
+    sub = Sub("block-faults")
+    for case in cases_[index::count]:
+        check_block_fault(sub, case)
+    evals = sub.evaluations
+    sub.evaluations = 0
+    sub.bulk(evals, evals, {"fault:fixed:undecodable-after-block-boundary": evals})
+    if index == 0 and cases_:
+        sub.samples.append(cases_[0])
+    return sub
+
+
 def _expected_for(mode, base_items):
     if mode == "yield":
         return base_items
@@ -313,10 +425,14 @@ def run(ctx):
     ctx.hyp("modes-text", lambda: cases(("delimited", "delimited-de", "fixed")), check_case, ctx.n(800, 20000))
     ctx.hyp("modes-sheets", lambda: cases(("excel", "ods")), check_case, ctx.n(200, 5000))
     ctx.hyp("faults", fault_cases, check_fault, ctx.n(500, 12000))
+    blocks = _block_cases(not ctx.quick)
+    ctx.par(_block_shard, [(i, ctx.workers, blocks) for i in range(ctx.workers)])
 
 
 def replay(sub, case):
-    if "fault" in case:
+    if case.get("fault") == "undecodable-after-block-boundary":
+        check_block_fault(sub, case)
+    elif "fault" in case:
         check_fault(sub, case)
     else:
         check_case(sub, case)
